@@ -103,7 +103,14 @@ File == [path |-> <<D1, D2, FName>>, pathstr |-> D1 \o "/" \o D2 \o "/" \o FName
 Dep5Para == [pats |-> IF dep5 = "match" THEN <<<<Lit(D1), Lit("/"), GS>>>> ELSE <<<<Lit("z"), Lit("/"), GS>>>>,
              patstr |-> IF dep5 = "match" THEN D1 \o "/*" ELSE "z/*",
              cop |-> <<"2005 Dep Five">>, lic |-> <<Leaf("Unlicense")>>]
-Proj == [files |-> <<File>>, licfiles |-> <<>>, tomls |-> SeqOfLevels(Levels),
+(* a second file in the same directory that declares nothing itself: whatever a table says for it must not depend on *)
+(* what the tool did for the first file before (one process, one Project object)                                      *)
+GNameChars == <<"g", ".", "p", "y">>
+File2 == [File EXCEPT !.path = <<D1, D2, "g.py">>, !.pathstr = D1 \o "/" \o D2 \o "/g.py", !.pchars = <<D1, "/", D2, "/">> \o GNameChars,
+                      !.type = "text",
+                      !.own = [cop |-> <<>>, lic |-> <<>>, bad |-> FALSE],
+                      !.dot = [present |-> FALSE, cop |-> <<>>, lic |-> <<>>, bad |-> FALSE]]
+Proj == [files |-> <<File, File2>>, licfiles |-> <<>>, tomls |-> SeqOfLevels(Levels),
          dep5 |-> IF dep5 = "none" THEN <<>> ELSE <<Dep5Para>>,
          opts |-> [submodules |-> FALSE, meson |-> FALSE], cls |-> <<>>]
 
